@@ -11,6 +11,7 @@ CONSTANTS
   Lowers = {0, 50}
   Usages = {2}
   EnvFiles = {"f1"}
+  TaskPats <- MCTaskPats3
 INVARIANT CInv
 PROPERTY PersistProtected NormalPassExact ThresholdPassSubset PolicyOrder
 CONSTRAINT FBound
